@@ -70,6 +70,14 @@ for s_, w in (('Update', 'update'), ('Rescan', 'rescan')):
     cmd(s_, s_, w, ok=['(self.0 matches Some(u) ==> %s)' % okstr('u@')], unit=False, private=True, spec='(match self.0 { None => %s, Some(u) => %s })' % (W(w), W(w, strarg('u@'))))
 cmd('ListAllIn', 'ListAllIn', 'listallinfo', ok=[okstr('self.directory@')], unit=False, private=True,
     spec='(if self.directory@.len() == 0 { %s } else { %s })' % (W('listallinfo'), W('listallinfo', strarg('self.directory@'))), extra='  tokens N10 "self.directory.is_empty()" "(vx_str_len(self.directory) == 0)"')
+POR = lambda e: 'vx_spec::tok::sbytes(por_text(%s))' % e
+cmd('Add', 'Add', 'addid', ok=[okstr('self.uri@')], unit=False, private=True,
+    spec='(match self.position { None => %s, Some(p) => %s })' % (W('addid', strarg('self.uri@')), W('addid', strarg('self.uri@'), POR('p'))))
+cmd('Move', 'Move', 'move', lits=['moveid'], private=True,
+    spec='(match self.from { Target::Id(i) => %s, Target::Range(r) => %s })' % (W('moveid', num('i.0'), POR('self.to')), W('move', rng('r'), POR('self.to'))))
+cmd('StickerFind', 'StickerFind', 'sticker', ok=[okstr('self.uri@'), okstr('self.name@'), '(self.filter matches Some(f) ==> %s)' % okstr('f.1@')], unit=False, private=True,
+    spec='(match self.filter { None => %s, Some((o, v)) => %s })' % (W('sticker', kw('find'), kw('song'), strarg('self.uri@'), strarg('self.name@')),
+         W('sticker', kw('find'), kw('song'), strarg('self.uri@'), strarg('self.name@'), '(match o { StickerFindOperator::Equals => %s, StickerFindOperator::GreaterThan => %s, StickerFindOperator::LessThan => %s })' % (kw('='), kw('>'), kw('<')), strarg('v@'))))
 cmd('AlbumArt', 'AlbumArt', 'albumart', [strarg('self.uri@'), num('self.offset')], [okstr('self.uri@')], unit=False, private=True)
 cmd('AlbumArtEmbedded', 'AlbumArtEmbedded', 'readpicture', [strarg('self.uri@'), num('self.offset')], [okstr('self.uri@')], unit=False, private=True)
 
@@ -128,7 +136,7 @@ def main():
         out.append('lift fn "<%s as Command>::command"' % k)
         out.append('  props C15\n  implicit C12 C15')
         if c['extra']: out.append(c['extra'].rstrip('\n'))
-        out.append('  prologue <<<\n        proof { lemma_command_words(); lemma_keywords(); }\n        broadcast use dec_text_digits, lemma_num_arg_ok, lemma_range_arg_ok;\n  >>>')
+        out.append('  prologue <<<\n        proof { lemma_command_words(); lemma_keywords(); }\n        broadcast use dec_text_digits, lemma_num_arg_ok, lemma_range_arg_ok, lemma_por_arg_ok;\n  >>>')
         if not c['unit']:
             out.append('lift fn "<%s as Command>::response"' % k)
             out.append('  props\n  implicit\n  attr <<<\n    #[verifier::external_body]\n  >>>')
